@@ -47,6 +47,16 @@ import (
 // connection exists and the histories are sequences of such failing calls (same thread and concurrent threads, Do
 // included) each of which must still come back. Dial outcomes additionally include a timeout-class error, which makes
 // the worker sleep for its 1 s reconnection throttle while calls with shorter deadlines are queued.
+//
+// Connection-death dimension (a connection that dies with requests in flight, followed by traffic on its successor): the
+// connection is lost while k = 2..MaxPendingRequests+2 requests are written and unanswered (one held by the reader, up to
+// MaxPendingRequests queued for the reader, one held by the writer), for MaxPendingRequests 2 and 3, in four ways: the
+// server closes in the middle of the first response / closes without a byte / answers the first request with
+// "Connection: close" and closes / never answers and the client's own ReadTimeout fails the read (timeout-class error, the
+// worker throttles the reconnection by 1 s). After the death a further call arrives (from a new thread, or as the next
+// call of the thread whose call failed first), is transmitted on the re-established connection and answered at once.
+// Every call that was in flight on the dead connection must end with a connection error (or its own response or
+// ErrTimeout), never with a response that travelled on the successor connection.
 
 const (
 	c38Deadline = iota // DoDeadline
@@ -74,6 +84,10 @@ type c38cfg struct {
 	tlsCfg     *tls.Config   // PipelineClient.TLSConfig (only read and cloned by the client)
 	waitAll    bool          // threads with a Do call are awaited too (only for configurations in which Do returns without a server)
 	logTime    time.Duration // >0: Logger.Printf takes that much virtual time (see c38slowLogger)
+	// drop[id] = d: when the server has received request id it stops answering and closes the connection d later without
+	// having sent a byte for it (the shared server model only closes after a first response segment)
+	drop        map[string]time.Duration
+	readTimeout time.Duration // PipelineClient.ReadTimeout
 }
 
 // c38tlsUnbuildable is the harness's reference for "no TLS client configuration exists for this PipelineClient
@@ -146,7 +160,20 @@ func c38body(cfg c38cfg) func() {
 	return func() {
 		o := &c38obs{}
 		mcrt.SetUserData(o)
-		o.vs = &c04vServer{beh: func(id string) c04beh { return cfg.beh[id] }}
+		o.vs = &c04vServer{beh: func(id string) c04beh {
+			if d, ok := cfg.drop[id]; ok {
+				// called by the server model for the connection that has just received id (its last seen entry)
+				for _, c := range o.vs.conns {
+					if seen := o.vs.seen[c.k]; len(seen) > 0 && seen[len(seen)-1] == id && !c.dead {
+						mcrt.Covered("server-closes-without-answering")
+						c.closeAt = max(c04vNow(), c.free) + d
+						c04vArm(c.closeAt)
+					}
+				}
+				return c04beh{never: true}
+			}
+			return cfg.beh[id]
+		}}
 		dial := func(string) (net.Conn, error) {
 			n := o.dials
 			o.dials++
@@ -181,7 +208,7 @@ func c38body(cfg c38cfg) func() {
 			addr = "h:80"
 		}
 		pl := &PipelineClient{Addr: addr, Dial: dial, MaxConns: 1, MaxPendingRequests: cfg.maxPending, Logger: c38nopLogger{},
-			IsTLS: cfg.isTLS, TLSConfig: cfg.tlsCfg}
+			IsTLS: cfg.isTLS, TLSConfig: cfg.tlsCfg, ReadTimeout: cfg.readTimeout}
 		if cfg.logTime > 0 {
 			pl.Logger = c38slowLogger{cfg.logTime}
 		}
@@ -390,6 +417,27 @@ func c38wrap(cfg c38cfg) func() {
 				early = true
 			}
 		}
+		// connections that were replaced: how many of the requests they received ended without their response
+		okID := map[string]bool{}
+		for _, r := range o.res {
+			if r.returned && r.err == nil {
+				okID[r.c.id] = true
+			}
+		}
+		for k, ids := range o.vs.seen {
+			n := 0
+			for _, id := range ids {
+				if !okID[id] {
+					n++
+				}
+			}
+			if k < len(o.vs.seen)-1 && len(ids) > 0 {
+				mcrt.Covered(fmt.Sprintf("conn-replaced-with-%d-unanswered-requests", n))
+			}
+			if k > 0 && n < len(ids) {
+				mcrt.Covered("own-response-on-successor-connection")
+			}
+		}
 		for _, r := range o.res {
 			if !r.returned {
 				continue
@@ -543,6 +591,81 @@ func TestVerif_C38(t *testing.T) {
 	if os.Getenv("VERIF_WORKER") == "" { // every mcx worker process builds the scenario list; count once
 		r.Set("tls_configurations_buildable", nBuildable)
 		r.Set("tls_configurations_unbuildable", nUnbuildable)
+	}
+	// connection-death dimension (see the file comment): k requests in flight on a connection that dies at 500 ms, then a
+	// further call F on its successor. Every subset W of the in-flight calls (1 <= |W| <= 3) is a scenario: the calls in W
+	// have 3 s deadlines and are still waiting when the connection dies (and would still be waiting when F is answered), the
+	// others have 100 ms deadlines, i.e. they have returned ErrTimeout long before while their requests keep their places in
+	// the client's queues. (All k waiting at once is the same history with more threads woken at the same instant; the
+	// number of schedules grows factorially with |W|, hence the cap.)
+	nDeath := 0
+	for _, mode := range []string{"cut", "drop", "close-after-first", "read-timeout"} {
+		for _, mp := range []int{2, 3} {
+			for k := 2; k <= mp+2; k++ {
+				for mask := 1; mask < 1<<k; mask++ {
+					for _, follow := range []string{"new-thread", "same-thread"} {
+						nw, wait := 0, ""
+						for i := 0; i < k; i++ {
+							if mask>>i&1 == 1 {
+								nw++
+								wait += string(rune('A' + i))
+							}
+						}
+						// tiers: quick = MaxPendingRequests 2 with the reader's queue full at the death (k = 3, 4), |W| = 2, bound 0 (bound 1 for one
+						// scenario per way of dying); thorough = everything, bound 1 for the quick scenarios, bound 0 for the others
+						quick := mp == 2 && k >= 3 && nw == 2
+						if nw > 3 || (!quick && !r.Thorough()) {
+							continue
+						}
+						qb, tb := 0, 0
+						if quick {
+							tb = 1
+							if k == 3 && wait == "AC" && follow == "new-thread" {
+								qb = 1
+							}
+						}
+						cfg := c38cfg{maxPending: mp, beh: map[string]c04beh{"F": {}}}
+						switch mode {
+						case "cut":
+							cfg.beh["A"] = c04beh{stall: 500 * ms, cut: true}
+						case "drop":
+							cfg.drop = map[string]time.Duration{"A": 500 * ms}
+						case "close-after-first":
+							cfg.beh["A"] = c04beh{stall: 500 * ms, close: true}
+						case "read-timeout":
+							cfg.beh["A"] = c04beh{never: true}
+							cfg.readTimeout = 500 * ms
+						}
+						first := -1
+						for i := 0; i < k; i++ {
+							c := c38call{id: string(rune('A' + i)), kind: D, timeout: 100 * ms, after: time.Duration(i) * ms}
+							if i%2 == 1 {
+								c.kind = T
+							}
+							if mask>>i&1 == 1 {
+								c.timeout = 3 * sec
+								if first < 0 {
+									first = i
+								}
+							}
+							cfg.calls = append(cfg.calls, []c38call{c})
+						}
+						f := c38call{id: "F", kind: T, timeout: 2 * sec}
+						if follow == "same-thread" {
+							cfg.calls[first] = append(cfg.calls[first], f)
+						} else {
+							f.after = 600 * ms
+							cfg.calls = append(cfg.calls, []c38call{f})
+						}
+						add(fmt.Sprintf("dies/%s/mp%d/k%d/wait=%s/%s", mode, mp, k, wait, follow), qb, tb, cfg)
+						nDeath++
+					}
+				}
+			}
+		}
+	}
+	if os.Getenv("VERIF_WORKER") == "" {
+		r.Set("connection_death_scenarios", nDeath)
 	}
 	add("tls/nocfg/hostport/answer-races-deadline", 1, 2, c38cfg{maxPending: 1, isTLS: true, addr: "h:443", calls: mk(false, cl("A", D, sec), cl("B", T, sec)), beh: map[string]c04beh{"A": {stall: sec}, "B": {}}})
 	add("tls/nocfg/hostport/answer/sim", 0, 1, c38cfg{maxPending: 2, isTLS: true, addr: "h:443", calls: mk(true, cl("A", D, sec), cl("B", T, sec)), beh: map[string]c04beh{"A": {}, "B": {}}})
